@@ -115,7 +115,17 @@ def install(reg):
     reg.add(Contract(
         M + "_set_attribute_cfgval", params={},
         notes="inlined in instance mode; only the loop contract is used there (proved on every instance path)",
-        loops={1: Loop(inv=[("counter", "0 <= i <= 4"), ("offset", "offset >= old_offset")],
+        loops={1: Loop(inv=[("counter", "0 <= i <= 4"), ("offset", "offset >= old_offset"),
+                            # the first item starts right after the documented 4-byte header (old_offset is the
+                            # offset the function was entered with; proved at loop entry, trivially preserved)
+                            ("first-item-follows-the-4-byte-header", "old_offset == 4"),
+                            ("cfglen", "(cfglen == len(self._payload) - old_offset) or (cfglen == 0 and len(self._payload) < old_offset)")],
+                       # contiguity of items (C14): an iteration that handles an item moves the offset past the key
+                       # and exactly the storage width the key ID's size code prescribes; any other iteration leaves
+                       # it where it is; the loop only stops when no complete item (>= 5 bytes) is left
+                       step=[("next-item-follows-this-one", "implies(pre_i == 4, offset == pre_offset + 4 + cfg_item_width(key))"),
+                             ("other-iterations-skip-nothing", "implies(pre_i != 4, offset == pre_offset)")],
+                       exit=[("no-complete-item-left", "len(self._payload) - offset <= 4")],
                        kinds={"key": "int", "keyname": "unbound", "att": "unbound", "atts": "unbound",
                               "valb": "unbound", "val": "unbound"},
                        decreases="(cfglen - offset, 4 - i)")}))
